@@ -121,9 +121,10 @@ func (r *DailyRotateRule) OutdatedFiles() []string {
 	boundaryFile := buf.String()
 
 	var outdates []string
+	current := filepath.Clean(r.filename)
 	for _, file := range files {
-		// 分隔符为空时，模式会匹配到当前日志文件自身：绝不删除它。
-		if file != r.filename && file < boundaryFile {
+		// 分隔符为空时，模式会匹配到当前日志文件自身：绝不删除它（Glob 返回的是清理后的路径，故按清理后的名字比较）。
+		if filepath.Clean(file) != current && file < boundaryFile {
 			outdates = append(outdates, file)
 		}
 	}
@@ -186,8 +187,9 @@ func (r *SizeLimitRotateRule) OutdatedFiles() []string {
 
 	// 分隔符为空时，模式会匹配到当前日志文件自身：它不是备份，绝不参与清理。
 	backups := make([]string, 0, len(files))
+	current := filepath.Clean(r.filename)
 	for _, f := range files {
-		if f != r.filename {
+		if filepath.Clean(f) != current {
 			backups = append(backups, f)
 		}
 	}
